@@ -461,12 +461,15 @@ def solve_history(tier="quick", seed=0, only=None):
     S = scenarios()
     for name, (mk, x0, y0) in S.items():
         for (c, p, s, nt) in configs(tier):
-            for collect in (True,):
+            # (a tiny initial penalty exercises the range where absolute float tolerances would swallow penalty updates)
+            for collect, rho0 in (((True, 1e-2), (True, 1e-10)) if (p == "DualNorm" and c == "DistanceRatio") else ((True, 1e-2),)):
                 inp = dict(scenario=name, controller=c, policy=p, step_solver=s, newton=nt, collect_path=collect)
+                if rho0 != 1e-2:
+                    inp["rho"] = rho0
                 if only is not None and only != inp:
                     continue
                 problem = mk()
-                params = mk_params(step_control_type=enum("StepControlType", c), penalty_update=enum("PenaltyUpdate", p), step_solver_type=enum("StepSolverType", s), newton_type=enum("NewtonType", nt), collect_path=collect, rho=1e-2, iteration_limit=150)
+                params = mk_params(step_control_type=enum("StepControlType", c), penalty_update=enum("PenaltyUpdate", p), step_solver_type=enum("StepSolverType", s), newton_type=enum("NewtonType", nt), collect_path=collect, rho=rho0, iteration_limit=150)
                 rec = run(problem, params, x0, y0)
                 cases += 1
                 if rec.exc is not None:
@@ -992,6 +995,20 @@ def solve_repeat(tier="quick", seed=0, only=None):
                 d = _same_trajectory(first, fresh)
                 if d:
                     failures.append(dict(label=f"C10:fresh_solver_after_other_solves_differs:{pol}", input=inp, observed=d))
+                # the SAME Params object shared with a solve of a different (unconstrained) problem in between:
+                # parameters are inputs, a solve must not rewrite them for whoever uses the object next
+                import copy as _copy
+
+                snapshot = _copy.deepcopy({k: getattr(params, k) for k in params.__dataclass_fields__ if k not in ("scaling",)})
+                mk_u, x0_u, y0_u = S["qp_uncons_box"]
+                run(mk_u(), params, x0_u, y0_u)
+                changed = [k for k, v in snapshot.items() if repr(getattr(params, k)) != repr(v)]
+                if changed:
+                    failures.append(dict(label=f"C10:solve_rewrites_the_caller's_Params_object:{changed[0]}", input=inp, observed=f"fields changed by a solve: {changed}"))
+                again = run(mk(), params, x0, y0)
+                d2 = _same_trajectory(fresh, again)
+                if d2:
+                    failures.append(dict(label=f"C10:solve_after_an_unrelated_solve_sharing_the_Params_object_differs:{pol}", input=inp, observed=d2))
     seen, uniq = set(), []
     for f in failures:
         if f["label"] not in seen:
